@@ -1,6 +1,6 @@
 (* Check.v — the correspondence check: the executable model is run on the states observed in the Go
    implementation (one snapshot after every step of Layout) and compared with the next observed state. *)
-From Autog Require Export Contracts.
+From Autog Require Export Contracts CrossCount.
 From Coq Require Import NArith.
 Local Open Scope Q_scope.
 
@@ -50,7 +50,7 @@ Definition cmp_graph (step : nat) (m o : graph) : list nat :=
 Definition cmp_res (step : nat) (m : res graph) (o : graph) : list nat :=
   match m with
   | Ok g => cmp_graph step g o
-  | Err (ErrFuel k) => [(step * 100 + 98)%nat; k]
+  | Err (ErrFuel k) => [(step * 100 + 98)%nat; (4000 + k)%nat]
   | Err _ => [(step * 100 + 99)%nat]
   end.
 
@@ -92,16 +92,24 @@ Fixpoint check_steps (c : tcase) (comp : Z) (labels : list nat) (before : graph)
       end
   end.
 
-(* the reported crossing count of a component is the number of crossings of the order it leaves behind *)
+(* the crossing count reported through the monitor is what the model of the cross counter computes on the
+   order the phase leaves behind (code 1300); for graphs without parallel edges that is the number of
+   crossings of the drawing (Proofs/CrossCountProofs.v), compared separately (code 1301) *)
 Definition check_crossings (c : tcase) (ncomp : nat) : list nat :=
   if negb (c_wmedian c) then [] else
   let counted := flat_map (fun i => match find_snap c 5 (Z.of_nat i), find_snap c 4 (Z.of_nat i) with
                                     | Some g, Some g2 =>
                                         if Nat.leb (length (g_N g2)) 1 || Nat.leb (length (g_L g2)) 1 then []
-                                        else [drawing_crossings g]
+                                        else [reported_crossings g]
                                     | _, _ => []
                                     end) (iota 0 ncomp) in
-  if list_eqb Z.eqb counted (c_crossings c) then [] else [1300%nat].
+  (if list_eqb Z.eqb counted (c_crossings c) then [] else [1300%nat])
+  ++ (if forallb (fun i => match find_snap c 5 (Z.of_nat i), find_snap c 4 (Z.of_nat i) with
+                           | Some g, Some g2 =>
+                               Nat.leb (length (g_N g2)) 1 || Nat.leb (length (g_L g2)) 1
+                               || (reported_crossings g =? drawing_crossings g)%Z
+                           | _, _ => true
+                           end) (iota 0 ncomp) then [] else [1301%nat]).
 
 Definition onode_eqb (a b : onode) : bool :=
   Nat.eqb (on_id a) (on_id b) && Qeq_bool (on_x a) (on_x b) && Qeq_bool (on_y a) (on_y b)
